@@ -44,7 +44,8 @@ struct LP {
 	void del_rows(const std::vector<int> &sorted_unique);
 	int col_index(const std::string &n) const { for (size_t j = 0; j < cols.size(); j++) if (cols[j].name == n) return (int)j; return -1; }
 	int row_index(const std::string &n) const { for (size_t i = 0; i < rows.size(); i++) if (rows[i].name == n) return (int)i; return -1; }
-	bool well_formed(std::string *why = 0) const;   // lower<=upper, range>=0
+	bool well_formed(std::string *why = 0) const;
+	bool moderate(int bits = 600) const;   // every number has numerator and denominator below 2^bits (C03: "data of moderate bit-size")   // lower<=upper, range>=0
 };
 
 struct Verdict { bool ok = true; std::string why; static Verdict bad(const std::string &w) { Verdict v; v.ok = false; v.why = w; return v; } };
